@@ -196,6 +196,9 @@ ReqOf(ev) ==
      [] ev.op = "AcmeExtApi" -> ReqAcmeExtApi(ev.args, ev.obs)
      [] ev.op = "MiscApi" -> ReqMiscApi(ev.obs)
      [] ev.op = "NeedsDigest" -> ReqNeedsDigest(ev.be, ev.obs)
+     [] ev.op = "CidrParse" -> ReqCidrParse(ev.args, ev.out, ev.obs)
+     [] ev.op = "DefaultParams" -> ReqDefaultParams(ev.be, ev.obs)
+     [] ev.op = "DateYmd" -> ReqDateYmd(ev.args, ev.out, ev.obs)
      [] ev.op = "ParamsNew" -> ReqParamsNew(ev.args, ev.out, ev.obs)
      [] ev.op = "InsertEku" -> ReqInsertEku(ev.args, ev.obs)
      [] ev.op = "Zeroize" -> ReqZeroize(ev.obs)
